@@ -43,6 +43,10 @@ enum PVal {
     Id(String),
     /// content of a hidden element: S1 and S2 take different columns of `Script::hidden_vals`
     Hidden(usize),
+    /// an attribute / facet value of a VISIBLE element: differs between S1 and S2 only when every
+    /// authority of p masks attributes / facets (field mask), else column 0 in both
+    MaskedAttr(usize),
+    MaskedFacet(usize),
 }
 
 #[derive(Clone, Debug)]
@@ -73,6 +77,9 @@ struct Script {
 struct World {
     nx: CognitiveNexus,
     sym: BTreeMap<String, String>,
+    /// whether MaskedAttr / MaskedFacet values follow the variant in this instance
+    vary_attrs: bool,
+    vary_facets: bool,
 }
 
 impl World {
@@ -89,6 +96,8 @@ impl World {
                     PVal::Ref(s) => json!({"id": self.id(s)}),
                     PVal::Id(s) => json!(self.id(s)),
                     PVal::Hidden(i) => script.hidden_vals[variant][*i].clone(),
+                    PVal::MaskedAttr(i) => script.hidden_vals[if self.vary_attrs { variant } else { 0 }][*i].clone(),
+                    PVal::MaskedFacet(i) => script.hidden_vals[if self.vary_facets { variant } else { 0 }][*i].clone(),
                 },
             );
         }
@@ -150,11 +159,15 @@ fn gen_script(rng: &mut Rng, size: usize) -> Script {
                 hid(&mut s, json!(rng.below(100) as f64 / 100.0), json!(rng.below(100) as f64 / 100.0)),
             )
         } else {
+            let as_attr = |v: PVal| if let PVal::Hidden(i) = v { PVal::MaskedAttr(i) } else { v };
             (
                 PVal::Lit(json!(two_words(rng))),
-                PVal::Lit(json!(rng.below(100))),
-                PVal::Lit(json!(format!("nick{}", rng.below(50)))),
-                PVal::Lit(json!(rng.below(100) as f64 / 100.0)),
+                as_attr(hid(&mut s, json!(rng.below(100)), json!(rng.below(100)))),
+                as_attr(hid(&mut s, json!(format!("nick{}", rng.below(50))), json!(format!("nick{}", rng.below(50))))),
+                match hid(&mut s, json!(rng.below(100) as f64 / 100.0), json!(rng.below(100) as f64 / 100.0)) {
+                    PVal::Hidden(i) => PVal::MaskedFacet(i),
+                    v => v,
+                },
             )
         };
         s.steps.push(Step::Kml {
@@ -301,6 +314,18 @@ fn gen_script(rng: &mut Rng, size: usize) -> Script {
             binds: vec![("a".into(), format!("tail_assertion{i}"))],
         });
         s.tail.push(Step::Classify { sym: format!("tail_assertion{i}"), label: "secret" });
+        // and a lifecycle event on something hidden
+        let victim = *rng.pick(&["tail_person", "tail_assertion"]);
+        match rng.below(5) {
+            0 => s.tail.push(Step::Kml { cmd: "ARCHIVE :t".into(), params: vec![("t".into(), PVal::Id(format!("{victim}{i}")))], binds: vec![] }),
+            1 => s.tail.push(Step::Kml { cmd: "TOMBSTONE :t".into(), params: vec![("t".into(), PVal::Id(format!("{victim}{i}")))], binds: vec![] }),
+            2 => s.tail.push(Step::Kml {
+                cmd: r#"PURGE :t REFERENCE POLICY "tombstone_reference" CONFIRM "PURGE""#.into(),
+                params: vec![("t".into(), PVal::Id(format!("{victim}{i}")))],
+                binds: vec![],
+            }),
+            _ => {}
+        }
     }
     s
 }
@@ -570,7 +595,9 @@ fn session(nx: &CognitiveNexus, who: &str) -> Session {
 async fn build(name: &str, script: &Script, cfg: &GovCfg, variant: usize, tail: bool) -> Result<(World, Installed, Vec<PolicyStatement>), String> {
     let nx = fresh_nexus(name).await?;
     let (inst, policy) = configure(&nx, cfg).await?;
-    let mut w = World { nx, sym: BTreeMap::new() };
+    // a field mask that every authority of p carries hides attributes / facets of visible elements
+    let masked = |field: &str| !cfg.fields.is_empty() && !cfg.fields.iter().any(|f| f == field);
+    let mut w = World { nx, sym: BTreeMap::new(), vary_attrs: masked("attributes"), vary_facets: masked("facets") };
     run_steps(&mut w, script, &script.steps, variant).await?;
     if tail {
         run_steps(&mut w, script, &script.tail, variant).await?;
@@ -860,10 +887,13 @@ fn first_diff(a: &Value, b: &Value, path: &str) -> Option<String> {
     }
 }
 
-/// Reports a violation, at most twice per signature and process: a root cause that shows in
-/// every configuration must not stop the exploration of everything else (vcore stops a section
-/// after a handful of violations). Further occurrences are counted.
-fn report(st: &mut Stats, sig: String, detail: Value) {
+/// Reports a violation, at most twice per signature and process, and only after all sections
+/// have run: a root cause that shows in every configuration must not stop the exploration of
+/// everything else (vcore stops a section after a handful of violations). Further occurrences
+/// are counted under `violations_seen[..]`.
+static PENDING: std::sync::Mutex<Vec<(String, Value)>> = std::sync::Mutex::new(Vec::new());
+
+fn report(st: &mut Stats, sig: String, mut detail: Value) {
     static SEEN: std::sync::Mutex<BTreeMap<String, u32>> = std::sync::Mutex::new(BTreeMap::new());
     let n = {
         let mut g = SEEN.lock().unwrap();
@@ -873,7 +903,12 @@ fn report(st: &mut Stats, sig: String, detail: Value) {
     };
     st.count(&format!("violations_seen[{sig}]"));
     if n <= 2 {
-        st.violation(sig, detail);
+        // replay coordinates (vcore tags only violations it sees inside the section)
+        let section = sig.split('/').nth(1).unwrap_or("ni").to_string();
+        if let Value::Object(m) = &mut detail {
+            m.entry("section").or_insert(json!(section));
+        }
+        PENDING.lock().unwrap().push((sig, detail));
     }
 }
 
@@ -939,6 +974,10 @@ fn ni_case(case: u64, rng: &mut Rng, st: &mut Stats, thorough: bool) {
                         "first_difference(S1|S2)": first_diff(&a1, &a2, "$"),
                         "first_difference_ignoring_scores_and_sequences": first_diff(&mask_keys(&mask_keys(&a1, &SEQ_KEYS), &["score"]), &mask_keys(&mask_keys(&a2, &SEQ_KEYS), &["score"]), "$"),
                         "hidden_ids": script.hidden.iter().map(|s| w1.id(s)).collect::<Vec<_>>(),
+                        "s2_only_tail": script.tail.iter().map(|t| match t {
+                            Step::Kml { cmd, params, .. } => format!("{cmd}  {}", w2.params(&script, 1, params)),
+                            Step::Classify { sym, label } => format!("classify({}, {label})", w2.id(sym)),
+                        }).collect::<Vec<_>>(),
                         "p_on_s1": short(&a1, 1500), "p_on_s2": short(&a2, 1500)}),
                 );
             }
@@ -1012,7 +1051,7 @@ fn timeline_case(case: u64, rng: &mut Rng, st: &mut Stats) {
         let nx = fresh_nexus(&format!("c19_tl_{case}")).await?;
         let gov = nx.governance();
         let mut policy = vec![];
-        let mut w = World { nx: nx.clone(), sym: BTreeMap::new() };
+        let mut w = World { nx: nx.clone(), sym: BTreeMap::new(), vary_attrs: false, vary_facets: false };
         run_steps(&mut w, &script, &script.steps, 0).await?;
         // p's authority; for "expiry" the root grant lapses a few milliseconds from now
         let inst = if event == "expiry" {
@@ -1187,7 +1226,7 @@ fn delegation_case(case: u64, rng: &mut Rng, st: &mut Stats) {
     let res: Result<(), String> = vcore::run::block_on(async {
         let nx = fresh_nexus(&format!("c19_dg_{case}")).await?;
         let gov = nx.governance();
-        let mut w = World { nx: nx.clone(), sym: BTreeMap::new() };
+        let mut w = World { nx: nx.clone(), sym: BTreeMap::new(), vary_attrs: false, vary_facets: false };
         run_steps(&mut w, &script, &script.steps, 0).await?;
         let mut none = vec![];
         let inst = install(&nx, &cfg, P, "", &mut none).await?;
@@ -1255,7 +1294,7 @@ fn delegation_case(case: u64, rng: &mut Rng, st: &mut Stats) {
                     st.count("delegation_subset_checks");
                     let extra: Vec<&String> = x.difference(&y).collect();
                     if !extra.is_empty() {
-                        report(st, format!("C19/delegation/{phase}/delegate_sees_more_than_delegator"), json!({"extra_ids": extra, "context": ctx("ids visible to the delegate only")}));
+                        report(st, format!("C19/delegation/{phase}/delegate_sees_more_than_delegator"), json!({"case": case, "extra_ids": extra, "context": ctx("ids visible to the delegate only")}));
                     }
                 }
             }
@@ -1331,6 +1370,10 @@ fn forbidden_changes(before: &Dump, after: &Dump) -> Vec<String> {
         for (id, row) in rows {
             match now.get(id) {
                 None => out.push(format!("{coll}: row {id} disappeared")),
+                // the documented exception: PURGE replaces the block of the element it erased by a
+                // purge marker (governance/purge.rs); whether that is observable to a principal
+                // that could not read the element is the non-interference monitor's business
+                Some(r) if r != row && coll == "element_governance_blocks" && r.contains("\"purged\":true") => {}
                 Some(r) if r != row => out.push(format!("{coll}: row {id} changed: {} -> {}", &row[..row.len().min(300)], &r[..r.len().min(300)])),
                 _ => {}
             }
@@ -1545,6 +1588,11 @@ fn main() {
     }
     if run.wants("delegation") {
         run.parallel("delegation", t.pick(24, 800), 0.5, |c, rng, st| delegation_case(c, rng, st));
+    }
+    let mut pending = std::mem::take(&mut *PENDING.lock().unwrap());
+    pending.sort_by(|a, b| a.0.cmp(&b.0));
+    for (sig, detail) in pending {
+        run.stats.violation(sig, detail);
     }
     run.finish();
 }
